@@ -9,6 +9,10 @@ import KavaVerif.Props.C09
 #print axioms KV.Acc.C09_integral
 #print axioms KV.Acc.C09_integral_block
 #print axioms KV.Acc.C09_claim
+#print axioms KV.Acc.C09_multi_sync
+#print axioms KV.Acc.C09_multi_frame
+#print axioms KV.Acc.C09_multi_claim
 #print axioms KV.Acc.C09_all_share_writes_hooked
 #print axioms KV.Acc.C09_sources_wired
 #print axioms KV.Acc.C09_savings_not_wired
+#print axioms KV.Acc.C09_source_tie_getTimeElapsedWithinLimits
